@@ -1,6 +1,7 @@
 package main
 
 import (
+	"reflect"
 	"fmt"
 	"math/rand"
 	"strings"
@@ -77,6 +78,12 @@ func genQuoteStr(r *rand.Rand, n int, emit func(args ...string)) {
 			emit(encStr(t + sh))
 		}
 	}
+	for _, v := range []string{"$h", "$", "$$", "$h x", "$1", "$a.b", "$é", "$verif_unused", "$h'", "$\"h\""} {
+		emit(encStr(v))
+	}
+	for i := 0; i < n/40; i++ {
+		emit(encStr("$" + randContent(r, true)))
+	}
 	for i := 0; i < n/8; i++ {
 		sh := pick(r, shapes)
 		switch r.Intn(3) {
@@ -115,6 +122,12 @@ func genQuoteIdent(r *rand.Rand, n int, emit func(args ...string)) {
 			a = append(a, encStr(s))
 		}
 		emit(a...)
+	}
+	for _, v := range []string{"$f", "$", "$f g", "$1", "$select", "$verif_unused"} {
+		emit(encStr(v))
+	}
+	for i := 0; i < n/40; i++ {
+		emit(encStr("$" + randQuoteContent(r)))
 	}
 	bmpSweep(r.Int63(), n/4, func(s string) { emit(encStr(s)) })
 	for i := 0; i < n/3; i++ {
@@ -207,6 +220,34 @@ func propQuoteStr(args []string) string {
 	if !ok4 || (expressible(s) && sl.Val != s) {
 		return fmt.Sprintf("a = %s AND b = 2: right operand is %T %s", q, l.RHS, l.RHS)
 	}
+	return quotedIgnoresBindings("a = "+q+" AND b = 2", s)
+}
+
+// quotedIgnoresBindings: a quoted literal is never a placeholder. The text is parsed once on a parser
+// without bindings and once on a parser whose bindings cover every name that could be read out of the
+// quoted value (the value itself, the value without a leading '$', its first word), each bound to a
+// marker of every kind; the two results must print the same and must not contain the marker.
+func quotedIgnoresBindings(text string, vals ...string) string {
+	plain, err0 := influxql.NewParser(strings.NewReader(text)).ParseExpr()
+	for _, marker := range []interface{}{"verif·bound·marker", int64(7040614), map[string]interface{}{"identifier": "verif_bound_marker"}} {
+		params := map[string]interface{}{"verif_unused": marker}
+		for _, v := range vals {
+			params[v] = marker
+			params[strings.TrimPrefix(v, "$")] = marker
+			if i := strings.IndexAny(v, " .,;'\"\\\n"); i > 0 {
+				params[strings.TrimPrefix(v[:i], "$")] = marker
+			}
+		}
+		p := influxql.NewParser(strings.NewReader(text))
+		p.SetParams(params)
+		bound, err1 := p.ParseExpr()
+		if (err0 == nil) != (err1 == nil) {
+			return fmt.Sprintf("%q parses differently once parameters are bound (%v): %v / %v", text, params, err0, err1)
+		}
+		if err0 == nil && (plain.String() != bound.String() || !reflect.DeepEqual(plain, bound)) {
+			return fmt.Sprintf("%q holds no placeholder, but with parameters bound (%v) it parses to %s instead of %s: a quoted literal was treated as a placeholder", text, params, bound.String(), plain.String())
+		}
+	}
 	return ""
 }
 
@@ -270,7 +311,7 @@ func propQuoteIdent(args []string) string {
 		if allExpr && (tok != influxql.IDENT || lit != s || consumed != utf8.RuneCountInString(q)) {
 			return fmt.Sprintf("QuoteIdent(%q) = %s scans as token %d %q covering %d runes", s, q, int(tok), lit, consumed)
 		}
-		return ""
+		return quotedIgnoresBindings(q+" = 1 AND b = 2", s)
 	}
 	// multi-part measurement name: db.rp.m (rp may be empty)
 	stmt, err := influxql.ParseStatement("SELECT f FROM " + q + " WHERE b = 2")
